@@ -586,6 +586,204 @@ func genConc(r *vlib.R, tier string, emit func(string)) {
 	emit(fmt.Sprintf("conc run %d %d %d %d %d %d", r.Range(4, 8), capv, r.Range(2, 8), r.Range(500, maxOps), keyspace, r.U64()>>1))
 }
 
+// genStall: "writers never wait on a global lock" scenarios (see stall.go).
+func genStall(r *vlib.R, tier string, emit func(string)) {
+	emit("conc new")
+	emit(fmt.Sprintf("conc stall segmap %d %d", vlib.Pick(r, []int{2, 2, 1, 3}), r.U64()>>1))
+	emit(fmt.Sprintf("conc stall cache %d %d", vlib.Pick(r, []int{2, 2, 1, 3}), r.U64()>>1))
+	if tier == "thorough" {
+		for d := 1; d <= 3; d++ {
+			emit(fmt.Sprintf("conc stall segmap %d %d", d, r.U64()>>1))
+			emit(fmt.Sprintf("conc stall cache %d %d", d, r.U64()>>1))
+		}
+	}
+}
+
+// ---------------------------------------------------------------- long probe runs
+
+// collideSearch finds `want` distinct non-zero keys accepted by ok, from
+// candidates of every magnitude.
+func collideSearch(r *vlib.R, used map[uint64]bool, want int, ok func(k uint64) bool) []uint64 {
+	var out []uint64
+	for tries := 0; len(out) < want && tries < 40000000; tries++ {
+		k := r.U64()
+		switch tries % 3 {
+		case 1:
+			k >>= uint(r.Intn(60))
+		case 2:
+			k = uint64(tries) // small sequential candidates as well
+		}
+		if k == 0 || used[k] || !ok(k) {
+			continue
+		}
+		used[k] = true
+		out = append(out, k)
+	}
+	return out
+}
+
+// genUmapLong: one occupied run far longer than any bound a lookup might put
+// on its probe walk: 129..~300 keys sharing 1-3 adjacent home slots of a
+// 256/512/1024/2048-slot table (no growth below 0.75), optionally wrapping
+// around the array end. Every stored key must stay readable however deep it
+// sits; deletions inside the run shift hundreds of entries.
+func genUmapLong(r *vlib.R, emit func(string)) {
+	capv := vlib.Pick(r, []int{150, 300, 300, 600, 1200})
+	emit(fmt.Sprintf("umap new %d", capv))
+	n, ga := cache.VerifUMapDataLen(um), cache.VerifUMapGrowAt(um)
+	scratch := cache.NewUInt64Map[uint64](capv)
+	run := r.Range(129, min(ga-2, 320))
+	if r.Chance(1, 4) {
+		run = vlib.Pick(r, []int{127, 128, 129, 130, 255, 256, 257})
+		run = min(run, ga-2)
+	}
+	homes := vlib.Pick(r, []int{1, 1, 2, 3})
+	h0 := vlib.Pick(r, []int{n - 1, n - run/2, n - run - 1, r.Intn(n), 0})
+	h0 = ((h0 % n) + n) % n
+	used := map[uint64]bool{}
+	keys := collideSearch(r, used, run, func(k uint64) bool {
+		d := (cache.VerifPrimaryIndex(scratch, k) - h0 + n) % n
+		return d < homes
+	})
+	far := func() uint64 { // a key deep in the run (inserted late)
+		lo := len(keys) * 2 / 3
+		return keys[lo+r.Intn(len(keys)-lo)]
+	}
+	for i, k := range keys {
+		emit(fmt.Sprintf("umap put %d %d", k, val(r)))
+		if i > 120 && r.Chance(1, 12) {
+			emit(fmt.Sprintf("umap get %d", k))
+			emit(fmt.Sprintf("umap has %d", k))
+		}
+	}
+	emit("umap slots")
+	emit("umap len")
+	nops := r.Range(40, 90)
+	for i := 0; i < nops; i++ {
+		switch x := r.Intn(100); {
+		case x < 25:
+			emit(fmt.Sprintf("umap get %d", far()))
+		case x < 35:
+			emit(fmt.Sprintf("umap has %d", far()))
+		case x < 50:
+			emit(fmt.Sprintf("umap put %d %d", far(), val(r)))
+		case x < 70: // delete near the head / in the middle: a long backward shift
+			emit(fmt.Sprintf("umap del %d", keys[r.Intn(len(keys)*2/3+1)]))
+			if r.Chance(1, 4) {
+				emit("umap slots")
+			}
+		case x < 76:
+			emit(fmt.Sprintf("umap pine %d %d", vlib.Pick(r, keys), val(r)))
+		case x < 84:
+			emit(fmt.Sprintf("umap evict %d %d %d", (h0+r.Intn(run))%n, r.Range(1, 3), far()))
+		case x < 90:
+			emit(fmt.Sprintf("umap put %d %d", vlib.Pick(r, keys), val(r))) // re-insert deleted ones
+		case x < 94:
+			emit("umap put 0 5")
+		default:
+			emit("umap len")
+		}
+	}
+	emit("umap dump")
+}
+
+// genSegLong: the same inside ONE segment of the segmented table / of a
+// cache.Cache: 129..185 keys that share a segment and the low 8 bits of the
+// slot hash, so they collide at every size the segment's table grows through
+// (8 .. 256 slots). Lookups, CAS and compare-delete on the deepest keys.
+func genSegLong(r *vlib.R, emit func(string)) {
+	useCache := r.Bool()
+	run := r.Range(129, 185)
+	var m256 = cache.NewUInt64Map[uint64](150) // 256 slots: the 8-bit slot index
+	var segOf func(k uint64) uint
+	var cnt uint
+	if useCache {
+		emit(fmt.Sprintf("cache new %d", r.Range(run+20, 3*run)))
+		inner := cache.VerifCacheSegMap(cc)
+		cnt = uint(inner.SegmentCount())
+		segOf = func(k uint64) uint { return cache.VerifSegIndex(inner, k) }
+	} else {
+		emit("segmap new 8 0")
+		cnt = uint(sm.SegmentCount())
+		segOf = func(k uint64) uint { return cache.VerifSegIndex(sm, k) }
+	}
+	s := uint(r.Intn(int(cnt)))
+	t := vlib.Pick(r, []int{255, 250, 200, r.Intn(256), 0})
+	used := map[uint64]bool{}
+	keys := collideSearch(r, used, run, func(k uint64) bool {
+		return segOf(k) == s && cache.VerifPrimaryIndex(m256, k) == t
+	})
+	if len(keys) < 10 {
+		return
+	}
+	far := func() uint64 {
+		lo := len(keys) * 2 / 3
+		return keys[lo+r.Intn(len(keys)-lo)]
+	}
+	for i, k := range keys {
+		if useCache {
+			emit(fmt.Sprintf("cache add %d %d", k, r.Range(1, 12)))
+			var v []uint64
+			if cPend != nil {
+				v = cPend.victims
+			}
+			emit(fmt.Sprintf("cache evicted %d %s", k, joinKeys(v)))
+			if i > 120 && r.Chance(1, 10) {
+				emit(fmt.Sprintf("cache get %d", k))
+			}
+		} else {
+			emit(fmt.Sprintf("segmap set %d %d", k, val(r)))
+			if i > 120 && r.Chance(1, 10) {
+				emit(fmt.Sprintf("segmap get %d", k))
+				emit(fmt.Sprintf("segmap has %d", k))
+			}
+		}
+	}
+	nops := r.Range(30, 70)
+	for i := 0; i < nops; i++ {
+		k := far()
+		if r.Chance(1, 4) {
+			k = vlib.Pick(r, keys)
+		}
+		if useCache {
+			switch x := r.Intn(10); {
+			case x < 3:
+				emit(fmt.Sprintf("cache get %d", k))
+			case x < 6:
+				emit(fmt.Sprintf("cache cas %d %d %d", k, tokenFor(r, k), r.Range(1, 12)))
+			case x < 8:
+				emit(fmt.Sprintf("cache cad %d %d", k, tokenFor(r, k)))
+			case x < 9:
+				emit(fmt.Sprintf("cache remove %d", keys[r.Intn(len(keys)/2+1)]))
+			default:
+				emit("cache len")
+			}
+		} else {
+			switch x := r.Intn(10); {
+			case x < 4:
+				emit(fmt.Sprintf("segmap get %d", k))
+			case x < 5:
+				emit(fmt.Sprintf("segmap has %d", k))
+			case x < 7:
+				emit(fmt.Sprintf("segmap del %d", keys[r.Intn(len(keys)/2+1)]))
+			case x < 8:
+				emit(fmt.Sprintf("segmap pine %d %d", k, val(r)))
+			case x < 9:
+				emit(fmt.Sprintf("segmap set %d %d", k, val(r)))
+			default:
+				emit("segmap len")
+			}
+		}
+	}
+	if useCache {
+		emit("cache reach")
+		emit("cache dump")
+	} else {
+		emit("segmap reach")
+		emit("segmap dump")
+	}
+}
+
 // ---------------------------------------------------------------- exhaustive small scope
 
 // exhaustive: the 8-slot table, 4 non-zero keys whose primary slot is 7 (the
@@ -645,14 +843,25 @@ func gen(r *vlib.R, n int, tier string, emit0 func(string)) {
 	for i := 0; i < nconc; i++ {
 		genConc(r, tier, emit)
 	}
+	genStall(r, tier, emit)
 	genLimChurn(r, tier, emit)
+	genUmapLong(r, emit)
+	genSegLong(r, emit)
 	if tier == "thorough" {
+		for i := 0; i < 6; i++ {
+			genUmapLong(r, emit)
+			genSegLong(r, emit)
+		}
 		genLimChurn(r, tier, emit)
 		exhaustive(emit)
 	}
 	start := count
 	for count-start < n {
-		switch x := r.Intn(95); {
+		switch x := r.Intn(100); {
+		case x >= 98:
+			genUmapLong(r, emit)
+		case x >= 95:
+			genSegLong(r, emit)
 		case x < 50:
 			genUmap(r, emit)
 		case x < 70:
